@@ -6,8 +6,8 @@ from cmdline_check import run_cmdline_property
 
 def families(tier):
     if tier == "quick":
-        return D.spell_family(SEED + 20, 56, maxlen=2, budget=12000) + D.cmdcluster_family(SEED + 21, 6, maxlen=2)
-    return D.spell_family(SEED + 20, 168, maxlen=3, budget=400000, vals=D.HOSTILE) + D.cmdcluster_family(SEED + 21, 12, maxlen=3)
+        return D.spell_family(SEED + 20, 56, maxlen=2, budget=12000) + D.cmdcluster_family(SEED + 21, 6, maxlen=2) + D.digit_family(SEED + 22, maxlen=2)
+    return D.spell_family(SEED + 20, 168, maxlen=3, budget=400000, vals=D.HOSTILE) + D.cmdcluster_family(SEED + 21, 12, maxlen=3) + D.digit_family(SEED + 22, maxlen=3)
 
 
 def sig(m):
